@@ -1659,6 +1659,7 @@ def check_C10(res):
             hv = 2 if cn in ('CanFdMessage64x',) else 1
             stream = struct.pack('<IHHII', 0x4A424F4C, 32, hv, osz, int(code)) + bytes(rng.choice([40, 120, 400])) + tail_obj
             files.append(wrap_stream(stream, rng.choice([64, 131072]))); kinds.append('size-sweep:%s:%d' % (cn, osz))
+    decoder_safety(res, pipe, summary, rng)
     os.environ['VERIF_CAP'] = str(256 * 1024 * 1024)
     r, mr = fc.read_files(res, files, fexe)
     if r is None or mr is None:
@@ -1691,6 +1692,59 @@ def check_C10(res):
     for sig, (f, k, a, ma) in fails.items():
         res.violation('hostile-input', '%s: implementation %s (model %s)' % (sig, a[:60], ma[:60]), {'class': 'File', 'failure': sig, 'mutation': k, 'file': f.hex()[:12000]})
     finish_codec(res)
+
+
+def decoder_safety(res, pipe, summary, rng):
+    """per-class obligations of the memory-safety theorem (readSafe / syncFirst of the regenerated decoders); for a class
+    that does not pass, search for an input on which the decoder really leaves its container: valid images of that
+    class with every aligned 16/32-bit word of the body replaced by small and odd values"""
+    import codecgen
+    safe = summary.get('readSafe', {})
+    syncf = summary.get('syncFirst', {})
+    res.oblige('T:readSafe-table-present', bool(safe), 'driver did not answer safecheck')
+    bad = []
+    for n in sorted(safe):
+        res.oblige('T:readSafe:' + n, safe[n], 'the regenerated decoder does not pass the verified memory-safety check (a read into a container that is not known to be large enough)')
+        res.oblige('T:syncFirst:' + n, syncf.get(n, False), 'the regenerated decoder does not begin with the signature search (progress argument)')
+        if not safe[n]:
+            bad.append(n)
+    if not bad:
+        return
+    exe = pipe.harness('codec_harness', ['codec_harness.cpp'])
+    drv = lib.driver_exe()
+    if exe is None:
+        return
+    g = codecgen.ObjGen(summary, rng)
+    found = {}
+    for cn in bad:
+        if cn not in g.cls:
+            continue
+        reqs = [g.line(cn, {})] + [g.line(cn, g.obj(cn, mode)) for mode in ('payload', 'random', 'boundary', 'payload', 'random') for _ in range(3)]
+        mod, rc, err = lib.session(drv, reqs)
+        decs = []
+        for a in mod:
+            if not a.startswith('enc halt=none'):
+                continue
+            img = bytes.fromhex(parse_kv(a).get('out', ''))
+            for w in (4, 2):
+                for p in range(16, len(img) - w + 1, w):
+                    for v in (1, 2, 3, 5, 7, 9, 15, 17, 31, 33, 255, 257):
+                        b = bytearray(img); b[p:p + w] = v.to_bytes(w, 'little')
+                        decs.append('dec %s %s' % (cn, (bytes(b) + bytes(64)).hex()))
+        decs = list(dict.fromkeys(decs))[:6000]
+        m2, rc, err = lib.session(drv, decs)
+        cand = [r for r, a in zip(decs, m2) if ' halt=oob' in a][:40]
+        res.corr.setdefault('decoder_safety_search', {})[cn] = {'decode_requests': len(decs), 'model_oob': len(cand)}
+        if not cand:
+            continue
+        imp, rc, err = lib.session(exe, ['!' + r for r in cand], timeout=600)
+        for r, b in zip(cand, imp):
+            if b.startswith('crash'):
+                found[cn] = (r, b)
+                break
+    for cn, (r, b) in found.items():
+        res.violation('hostile-input', '%s: the decoder writes outside its container (model: oob; sanitizer abort in the implementation: %s)' % (cn, b[:80]),
+                      {'class': cn, 'failure': 'decoder-out-of-bounds', 'request': r[:4000]})
 
 
 def classify_hostile(f, a, ma, kind=''):
@@ -2160,7 +2214,7 @@ C04_THEOREMS = []
 C05_THEOREMS = []
 C08_THEOREMS = []
 C09_THEOREMS = []
-C10_THEOREMS = []
+C10_THEOREMS = ['Blf.Props.C10_decoder_memory_safe', 'Blf.Props.C10_read_session_ends_without_ub', 'Blf.Props.C10_parser_progress']
 
 
 def finish_codec(res):
